@@ -39,7 +39,8 @@ EXPLANATION = (
     "every library call write-free. regress/C16.v: with the pre-F16 shared visitedSymlinks set, explicit schedules whose results "
     "differ from both sequential orders. Runtime evidence: harness/c16 built with -race runs batches of 2..32 goroutines issuing "
     "mixed calls (RecordArtifacts on generated trees with file/dir/nested/cyclic symlinks, RunCommand, InTotoRun, Sign/Verify for "
-    "Metablock and DSSE, Dump+LoadMetadata, key loading, VerifyArtifacts, SubstituteParameters, InTotoVerify, and InTotoVerifyWithDirectory "
+    "Metablock and DSSE, Dump+LoadMetadata, key loading, VerifyArtifacts, SubstituteParameters, InTotoVerify, RecordStart/Stop, MatchProducts, "
+    "the rarely taken paths (malformed patterns, unparsable metadata, failing inspections, error returns of every entry point), and InTotoVerifyWithDirectory "
     "with slow inspections next to calls using paths relative to the fixed working directory) on disjoint data and "
     "compares every result with the same calls made sequentially; any difference, race report or crash is a violation.")
 
@@ -186,7 +187,7 @@ def correspondence(ctx):
     rcs = [rc]
     # cold starts: one batch of 32 goroutines per fresh process, so that whatever the library initialises lazily on
     # first use is first used concurrently (in the long run above only the very first batches are cold)
-    cold_mixes = ['mixed', 'record-symlinks', 'crypto-metadata', 'run', 'verify']
+    cold_mixes = ['mixed', 'rare-paths', 'record-symlinks', 'crypto-metadata', 'run', 'verify']
     ncold = 3 if ctx.tier == 'quick' else 25
     for i in range(ncold):
         rc2, o2, b2 = _run(ctx, ('32' if i % 2 == 0 else '8', 1, '0', '0', cold_mixes[i % len(cold_mixes)]), 'cold', seed_off=1000 + i)
@@ -218,7 +219,7 @@ def correspondence(ctx):
     corr.rule = ("one evaluation = one batch: G goroutines (2..32), each issuing 3-6 library calls drawn from a call mix on its own "
                  "generated tree (plain / file symlinks / symlinked directories / nested symlinked directories / symlink cycle / "
                  "dangling link), keys and metadata files; results compared call by call with the same calls made sequentially "
-                 "on an identical copy of the tree; run under the race detector; quick: G in {2,8,32} x 5 mixes x "
+                 "on an identical copy of the tree; run under the race detector; quick: G in {2,8,32} x 6 mixes (one of them rare-paths: malformed rule patterns distinct per goroutine and call, unparsable metadata, failing inspections, the error return of every entry point, RecordStart/Stop, MatchProducts) x "
                  "yield on/off, plus 3 cold-start processes of one 32/8-goroutine batch each (concurrent calls run before the sequential "
                  "ones, so lazily initialised state is first touched concurrently); thorough adds GOMAXPROCS in {1,2,4,16}, more G, "
                  "rounds and 25 cold starts. Mix cwd-relative (G in {4,8}; thorough {4,8,16} x GOMAXPROCS {default,4} x yield): the harness "
